@@ -27,6 +27,16 @@ CLAIMS = {
         "note": "Assume/guarantee: opaque callables (child operators, user proxes) do not mutate arguments, which this rule establishes class by class. "
                 "numpy view/copy semantics are a table (VIEW_*/copy lists in effects.py). GPU arms pruned. Bit-level determinism of numpy not decided.",
     },
+    "C04": {
+        "engine": "E4 symbolic Linop algebra",
+        "category": "other",
+        "technique": "static analysis: symbolic evaluation of _normal_linop of every class into operator terms; admissibility of Identity shortcuts against a table of unitary/isometric primitives; palindrome check of the Toeplitz chain",
+        "text": "Decides that the default normal operator is self.H * self, that N/H cache exactly their defining methods, that every Identity shortcut sits on a primitive "
+                "that is unitary for all parameters (block gather/scatter is rejected), that NUFFT's Toeplitz operator is B^H Multiply(psf) B with psf computed from the "
+                "operator's own coord/ishape/oversamp/width over the last ndim axes, and that consumers cannot mutate a cached A.N. All parameters and inputs are covered at once.",
+        "design_ref": "DESIGN.md section 4 C04",
+        "note": "Not decided: the interpolation accuracy of the Toeplitz embedding. Unitary/isometry table is a list of mathematical facts in rules/c04.py; FFT unitarity relies on norm='ortho' (C05).",
+    },
     "C12": {
         "engine": "E3 value numbering + E2 alias analysis",
         "category": "other",
